@@ -179,6 +179,34 @@ theorem label_injective (delim : String) (render : Nat → Nat → String) (keys
         have := ih xs ys (by simpa using hlen) (by simpa using hlen') hab.2
         rw [hx, this]
 
+/-- labels on the grid, end to end: two results of one `get_hmf` call (several list-valued arguments,
+    any loop order) that carry the same label are the same combination — under the hypotheses of
+    `label_injective` (token renderings injective per key and not confusable across the delimiter) -/
+theorem labels_unique_on_grid (order : List Nat) (kwargs : List (Nat × List Nat))
+    (a b : Nat × List Nat) (rest : List (Nat × List Nat)) (h : loopLists kwargs = a :: b :: rest)
+    (delim : String) (render : Nat → Nat → String)
+    (hsplit : ∀ (x y : List String), delim.intercalate x = delim.intercalate y → x.length = y.length →
+        (∀ t ∈ x ++ y, ∃ k v, t = render k v) → x = y)
+    (hinj : ∀ k x y, render k x = render k y → x = y)
+    (c₁ c₂ : List (Nat × Nat)) (h₁ : c₁ ∈ combos order kwargs) (h₂ : c₂ ∈ combos order kwargs)
+    (hl : makeLabel delim render c₁ = makeLabel delim render c₂) : c₁ = c₂ := by
+  simp only [combos, h] at h₁ h₂
+  rw [← h] at h₁ h₂
+  obtain ⟨v, hv, rfl⟩ := List.mem_map.mp h₁
+  obtain ⟨w, hw, rfl⟩ := List.mem_map.mp h₂
+  have lv := ((mem_product _ v).mp hv).length_eq
+  have lw := ((mem_product _ w).mp hw).length_eq
+  simp only [List.length_map] at lv lw
+  have := label_injective delim render ((orderLists order (loopLists kwargs)).map (·.1)) v w
+    (by simp [lv]) (by simp [lw])
+    (fun x y he hx hy hlen => hsplit x y he hlen (by
+      intro t ht
+      rcases List.mem_append.mp ht with ht | ht
+      · obtain ⟨kv, _, rfl⟩ := List.mem_map.mp (hx t ht); exact ⟨kv.1, kv.2, rfl⟩
+      · obtain ⟨kv, _, rfl⟩ := List.mem_map.mp (hy t ht); exact ⟨kv.1, kv.2, rfl⟩))
+    hinj hl
+  rw [this]
+
 /-! ## loop order -/
 
 /-- `get_best_param_order` returns a permutation of all parameters … -/
